@@ -430,9 +430,10 @@ func genLookup(t *Tracer, m *Meta, prop, tier string, seed int64) {
 		ci := (i + int(seed)) % len(boundaryConds)
 		fam := boundaryFamilies[r.Intn(len(boundaryFamilies))]
 		if i < 8 {
-			// the end of the label bitmap exactly on a word boundary, last bit set
-			ci = 0
-			fam = []string{"comb", "twosym"}[i%2]
+			// the end of the label bitmap exactly on a word boundary: last bit set, or the
+			// last inner node a short one
+			ci = i % 2
+			fam = []string{"comb", "twosym"}[(i/2)%2]
 		}
 		o4 := pickOpts(r, prop, 1)[0]
 		keys := seekBoundary(r, fam, ci, o4)
